@@ -1,6 +1,8 @@
 package main
 
 import (
+	"path/filepath"
+	"os"
 	"fmt"
 	"sort"
 	"strings"
@@ -81,11 +83,41 @@ func (e *env) classify(c *snapCase, sr *snapResult) (nontrivial bool) {
 	return tie || collapse
 }
 
+// corpusCases: the recorded inputs of /verif/corpus/<property>.ops (witnesses of the known findings, minimised past failures): they run first
+func (e *env) corpusCases() []*snapCase {
+	if e.corpusDone {
+		return nil
+	}
+	e.corpusDone = true
+	b, err := os.ReadFile(filepath.Join(verifDir(), "corpus", e.res.Property+".ops"))
+	if err != nil {
+		return nil
+	}
+	var cs []*snapCase
+	for _, line := range strings.Split(string(b), "\n") {
+		line = strings.TrimSpace(line)
+		if line == "" || strings.HasPrefix(line, "#") {
+			continue
+		}
+		c, err := caseFromOp(line)
+		if err != nil {
+			e.res.Notes = append(e.res.Notes, "corpus: "+err.Error())
+			continue
+		}
+		c.tag = "corpus"
+		cs = append(cs, c)
+	}
+	e.res.Dist["snap:corpus-cases"] = len(cs)
+	return cs
+}
+
 func (e *env) runSnap(o snapOpts) {
 	r := e.res
 	const chunk = 1024
+	corpus := e.corpusCases()
 	for done := 0; done < o.n; {
 		var cases []*snapCase
+		cases, corpus = append(cases, corpus...), nil
 		for len(cases) < chunk && done+len(cases) < o.n {
 			c := o.gen()
 			if c == nil {
